@@ -18,3 +18,14 @@ CLAIMED.update({
    text="Decides only the lexer-progress and pull-discipline clauses (necessary conditions of termination): every returned token / skip-loop iteration consumed >= 1 byte, text advances by that length, one pull per shift. Does NOT decide bounded reductions, recovery termination or panic freedom (table invariants).",
    note="trusted: rustc MIR; regex-automata stepping terminates"),
 })
+CLAIMED.update({
+ "C04": dict(level="other", design="§2 C04", technique="static analysis: who-may-call, must-not-pass-through and dominance rules over the MIR of lalrpop_util::state_machine; value-flow of last_location; template sequence rule for the recursive-ascent error arm",
+   text="Decides the no-read-ahead and EOF-location clauses: the token iterator is pulled only in next_token (called from parse/error_recovery only); without `!` error_recovery returns the error without pulling, reducing or calling the definition; recovery is entered only on the None side of the action decodes; last_location comes from the pulled triple's end / start_location. The viable-prefix property of the tables is NOT decided.",
+   note="trusted: rustc MIR and callee resolution"),
+ "C16": dict(level="other", design="§2 C16", technique="static analysis: dominance-in-loop and value-flow rules on the MIR of Parser::error_recovery (token accounting) + sibling agreement of the error column (lower / error_action / TERMINAL list) with abstract evaluation of the generator expression",
+   text="Decides the token-accounting clause: every token taken from the lookahead is pushed on the one dropped_tokens vector before the next pull, the vector is only pushed to and moved whole into ErrorRecovery, the error is computed before dropping, and the error pseudo-terminal column agrees in three places. Tree well-formedness and span ordering are NOT decided.",
+   note="trusted: rustc MIR"),
+ "C17": dict(level="other", design="§2 C17", technique="static analysis: value-flow (payload returned verbatim) and must-not-pass-through rules over the MIR of next_token/parse/parse_eof/error_recovery; template rules for ToTriple impls and fallible reductions",
+   text="Runtime half: every arm that propagates a lexer error, an action result or a recovery result returns exactly that payload and reaches the return with no pull/reduce/recovery/definition call (all arms enumerated). Generated half at template level: Result items map Err(e) to User{error:e}; fallible actions propagate with `?`/`return Some(Err(e))`.",
+   note="trusted: rustc MIR; rustc's typing of the generated Result plumbing"),
+})
